@@ -29,6 +29,9 @@ pub struct Case {
     pub ty: String,
     /// assign | component | parent | valref | named
     pub ctx: String,
+    /// how finite range ends are written: "" closed, "lo" / "hi" / "both": the equivalent open notation `(l-1)<..`, `..<(h+1)`
+    #[serde(default)]
+    pub open: String,
     /// for sized types: extension marker inside SIZE(...) (true) or after it (false)
     #[serde(default)]
     pub ext_inner: bool,
@@ -293,8 +296,17 @@ fn end_text(v: Option<i64>, lower: bool, ctx: &str) -> String {
     }
 }
 fn expr_text(e: &Expr, ctx: &str, words: bool) -> String {
+    expr_text_open(e, ctx, words, "")
+}
+fn expr_text_open(e: &Expr, ctx: &str, words: bool, open: &str) -> String {
     let opnd = |o: &Opnd| match o {
         Opnd::V(v) => end_text(Some(*v), true, ctx),
+        // the same set of integers written with excluded endpoints
+        Opnd::R(Some(l), Some(h)) if !open.is_empty() => {
+            let lo = if open == "lo" || open == "both" { format!("{}<", l - 1) } else { l.to_string() };
+            let hi = if open == "hi" || open == "both" { format!("<{}", h + 1) } else { h.to_string() };
+            format!("{lo}..{hi}")
+        }
         Opnd::R(l, h) => format!("{}..{}", end_text(*l, true, ctx), end_text(*h, false, ctx)),
     };
     let mut s = String::new();
@@ -338,7 +350,7 @@ fn sized(ty: &str) -> bool {
 pub fn text(c: &Case) -> String {
     let sz = sized(&c.ty);
     let one = |e: &Expr| -> String {
-        let inner = expr_text(e, &c.ctx, c.words);
+        let inner = expr_text_open(e, &c.ctx, c.words, &c.open);
         if sz {
             if e.ext && c.ext_inner {
                 format!("(SIZE ({inner}, ...))")
@@ -495,7 +507,7 @@ impl Prop for C04 {
         "C04"
     }
     fn rule(&self) -> String {
-        "subtype expressions of 1..3 operands (single value or range with endpoints from {MIN,-3,0,2,5,9,MAX}; 32 operands) joined by | ^ EXCEPT without parentheses, ALL EXCEPT x, optional extension marker, 1..2 serial constraints, on INTEGER / BIT STRING / OCTET STRING / IA5String / SEQUENCE OF / SET OF (SIZE wrapping, non-negative operands), as type assignment, component, through a constrained parent reference, as the constraint of a SEQUENCE OF element or of a component whose type is a reference to the unconstrained type (INTEGER, OCTET STRING, SEQUENCE OF), as a contained subtype `(P)` / `(INCLUDES P)` of a type carrying the expression (INTEGER and SIZE-constrained OCTET STRING), with value references and with named numbers as endpoints, both operator spellings. Oracle: exact set semantics on a 19-point universe (bit sets) for soundness, interval fold (hull/∩/EXCEPT ignored) under X.680 precedence for equality, marker⇔extensible. A case is non-trivial when it compiled cleanly and a bound (or its absence) was read from the item and compared.".into()
+        "subtype expressions of 1..3 operands (single value or range with endpoints from {MIN,-3,0,2,5,9,MAX}; 32 operands) joined by | ^ EXCEPT without parentheses, ALL EXCEPT x, optional extension marker, 1..2 serial constraints, finite ranges also written with excluded endpoints (`a<..b`, `a..<b`, `a<..<b`), on INTEGER / BIT STRING / OCTET STRING / IA5String / SEQUENCE OF / SET OF (SIZE wrapping, non-negative operands), as type assignment, component, through a constrained parent reference, as the constraint of a SEQUENCE OF element or of a component whose type is a reference to the unconstrained type (INTEGER, OCTET STRING, SEQUENCE OF), as a contained subtype `(P)` / `(INCLUDES P)` of a type carrying the expression (INTEGER and SIZE-constrained OCTET STRING), with value references and with named numbers as endpoints, both operator spellings. Oracle: exact set semantics on a 19-point universe (bit sets) for soundness, interval fold (hull/∩/EXCEPT ignored) under X.680 precedence for equality, marker⇔extensible. A case is non-trivial when it compiled cleanly and a bound (or its absence) was read from the item and compared.".into()
     }
     fn selftest(&self) -> Result<u64, String> {
         // interval algebra vs brute force over the universe
@@ -549,7 +561,7 @@ impl Prop for C04 {
         let ops = all_operands();
         let opsz: Vec<Opnd> = ops.iter().filter(|o| nonneg(o)).cloned().collect();
         let mut out = vec![];
-        let mk = |cons: Vec<Expr>, ty: &str, ctx: &str, ext_inner: bool, words: bool| Case { cons, ty: ty.into(), ctx: ctx.into(), ext_inner, words };
+        let mk = |cons: Vec<Expr>, ty: &str, ctx: &str, ext_inner: bool, words: bool| Case { cons, ty: ty.into(), ctx: ctx.into(), ext_inner, words, open: String::new() };
         let exprs = |pool: &[Opnd], n: usize| -> Vec<Expr> {
             let mut v = vec![];
             match n {
@@ -609,6 +621,19 @@ impl Prop for C04 {
                 }
                 for ctx in ["valref", "named", "namedself", "valref-lo", "valref-hi", "named-lo", "named-hi"] {
                     out.push(mk(vec![with_ext(e, x)], "INTEGER", ctx, false, false));
+                }
+            }
+        }
+        // open range endpoints: every expression with a finite range, written with excluded endpoints
+        for e in e1.iter().chain(e2.iter()) {
+            if !e.operands.iter().any(|o| matches!(o, Opnd::R(Some(_), Some(_)))) {
+                continue;
+            }
+            for open in ["lo", "hi", "both"] {
+                for ctx in ["assign", "component"] {
+                    let mut c = mk(vec![e.clone()], "INTEGER", ctx, false, false);
+                    c.open = open.into();
+                    out.push(c);
                 }
             }
         }
@@ -746,7 +771,7 @@ impl Prop for C04 {
         let src = text(c);
         let o = compile1(&src);
         let sh = shape(c);
-        let kbase = format!("range|ctx={}|type={}|shape={sh}", c.ctx, c.ty);
+        let kbase = format!("range|ctx={}{}|type={}|shape={sh}", c.ctx, if c.open.is_empty() { String::new() } else { format!("+open-{}", c.open) }, c.ty);
         let ops_used: String = c.cons.iter().map(|e| e.ops.iter().collect::<String>()).collect::<Vec<_>>().join(";");
         let prec_key = format!("range|precedence|ops={ops_used}");
         let prec_possible = eff_right != Ok(eff) || eff_right_strict != Ok(eff);
